@@ -1,13 +1,25 @@
 /-
 C12 — inside a word, overlapping alternatives are told apart correctly.
 
+Proved over the Lean model of the bash template (`Model/BashRt.lean`, compared with the real bash on
+every explored command line): `overlap_match` — a fully typed value `h ++ v` is read as head then
+value `v` by the one-pass matcher, whatever other values are prefixes of `v` or have `v` as a prefix,
+provided the literal table lists the literals before `v` at least as long as `v` (the
+decreasing-length order of dfa.rs, checked on every emitted table by the run);
+`overlap_complete_stop` — a partially typed value stops the matcher at the point where the values
+are expected (so that exactly the values extending it are offered), no shorter value consuming part
+of it first.  Before the repair 4d96d3e `overlap_match` was false of the template (the stop test
+fired in `matches` mode).
+
 The expectation the check uses is the statement written outright over the value list `L`:
 a partially typed value `p` is offered exactly `L.filter (p <+: ·)`.  Proved here: that set never
 drops a longer value because a shorter one also matches (`longest_kept`), contains a value typed in
 full (`full_value_offered`), and offers nothing foreign (`only_allowed`).  The theorems about the
 one-pass matcher of the template (`overlap_match`, `overlap_complete`) are the open growth target.
 -/
+import Complgen.Proofs.Overlap
 namespace Complgen.Props.C12
+open Complgen.BashRt
 
 def extending (L : List (List Char)) (p : List Char) : List (List Char) := L.filter (p.isPrefixOf ·)
 
@@ -26,6 +38,26 @@ theorem longest_kept (L : List (List Char)) (p short long : List Char)
   have h2 : short <+: long := List.isPrefixOf_iff_prefix.mp hsl
   have h3 : p.isPrefixOf long = true := List.isPrefixOf_iff_prefix.mpr (List.IsPrefix.trans h1 h2)
   simp [extending, List.mem_filter, hs, hl, hps, h3]
+
+/-- **A fully typed value is recognised as that value.** -/
+theorem overlap_match (T : Tables) (out : Nat → List String) (h v : String) (ih iv q2 : Nat)
+    (row1 : List (Nat × Nat)) (hh : h.toList ≠ []) (hv : v.toList ≠ [])
+    (hrow0 : rowOf T.litTrans 0 = some [(ih, 1)]) (hrow1 : rowOf T.litTrans 1 = some row1)
+    (hlh : T.literals[ih]? = some h) (hlv : T.literals[iv]? = some v) (htv : toOf row1 iv = some q2)
+    (hhv : isPrefix (h ++ v).toList h.toList = false)
+    (hsorted : ∀ i, i < iv → ∀ l, T.literals[i]? = some l → l.length ≥ v.length ∧ l ≠ v) :
+    subLoop T out .matchesMode (h ++ v).toList ((h ++ v).toList.length + 1) 0 0 =
+      (q2, (h ++ v).toList.length, true) :=
+  BashRt.overlap_match T out h v ih iv q2 row1 hh hv hrow0 hrow1 hlh hlv htv hhv hsorted
+
+/-- **A partially typed value stops the matcher where the values are expected.** -/
+theorem overlap_complete_stop (lits0 : List String) (row : List (Nat × Nat)) (p : List Char)
+    (rest : List String) (id j : Nat) (lj : String) (h : rest[j]? = some lj)
+    (ht : (toOf row (id + j)).isSome = true) (hp : isPrefix p lj.toList = true) (hne : p ≠ lj.toList)
+    (hb : ∀ i, i < j → ∀ l, rest[i]? = some l → l.length ≥ lj.length ∧
+        ¬ ((toOf row (id + i)).isSome = true ∧ isPrefix p l.toList = true)) :
+    litPass .complete lits0 row p id rest = .stop :=
+  litPass_complete_stop lits0 row p rest id j lj h ht hp hne hb
 
 example : extending ["a".toList, "abc".toList, "abcd".toList, "x".toList] "ab".toList = ["abc".toList, "abcd".toList] := by
   decide
